@@ -653,11 +653,11 @@ func init() {
 
 // reviewed i32.const immediates written with the unsigned encoder: function -> operand -> reason
 var c02R4Reviewed = map[string]string{
-	"entryIdx":             "block-dispatch tag: written and compared with the same (injective) byte encoding, never used as a number",
-	"idx":                  "block-dispatch tag (see entryIdx)",
-	"blockIndex[t.Then]":   "block-dispatch tag (see entryIdx)",
-	"blockIndex[t.Else]":   "block-dispatch tag (see entryIdx)",
-	"blockIndex[target]":   "block-dispatch tag (see entryIdx)",
+	"entryIdx":           "block-dispatch tag: written and compared with the same (injective) byte encoding, never used as a number",
+	"idx":                "block-dispatch tag (see entryIdx)",
+	"blockIndex[t.Then]": "block-dispatch tag (see entryIdx)",
+	"blockIndex[t.Else]": "block-dispatch tag (see entryIdx)",
+	"blockIndex[target]": "block-dispatch tag (see entryIdx)",
 }
 
 // C02.R4: the immediate of i32.const / i64.const is a signed LEB128.
